@@ -511,8 +511,10 @@ class Zeroconf(QuietLogger):
             withdrawn.append(self._service_type_enumeration_pointer(info.type))
         self.out_queue.async_remove_records(withdrawn)
         self.out_delay_queue.async_remove_records(withdrawn)
+        # The packet is built now: the caller may register the same object
+        # again, under another name, while the goodbyes are still going out
         goodbye = asyncio.ensure_future(
-            self._async_broadcast_service(info, _UNREGISTER_TIME, 0, broadcast_addresses)
+            self._async_broadcast_goodbyes(self.generate_service_broadcast(info, 0, broadcast_addresses), info.key)
         )
         # A shutdown lets the goodbyes that are still going out finish
         self._goodbye_tasks.add(goodbye)
@@ -566,11 +568,15 @@ class Zeroconf(QuietLogger):
             goodbye.add_done_callback(self._goodbye_tasks.discard)
             await goodbye
 
-    async def _async_broadcast_goodbyes(self, out: DNSOutgoing) -> None:
-        """Send the goodbye packet for all services at intervals."""
+    async def _async_broadcast_goodbyes(self, out: DNSOutgoing, key: Optional[str] = None) -> None:
+        """Send a goodbye packet at intervals."""
         for i in range(_REGISTER_BROADCASTS):
             if i != 0:
                 await asyncio.sleep(millis_to_seconds(_UNREGISTER_TIME))
+            if key is not None and self.registry.async_get_info_name(key) is not None:
+                # The name was registered again in the meantime, another
+                # goodbye would withdraw the new registration
+                return
             self.async_send(out)
 
     def unregister_all_services(self) -> None:
